@@ -1,7 +1,7 @@
 """R-HEADS (head rules and markers) and R-FLAGS (producer / consumer protocol of per-node flags)."""
 import ast
 
-from ..core import (AnalysisError, path, unparse, norm_test, facts_at, walk_own, split_assumes,
+from ..core import (AnalysisError, Unrecognised, path, unparse, norm_test, facts_at, walk_own, split_assumes,
                     const_str, root_name)
 from ..events import name_defs, single_def, fresh_paths
 from ..report import Ob
@@ -26,7 +26,7 @@ def r_heads(prog, tier):
         hops += 1
     cfg = f.cfg
     if len(f.params) < 3:
-        raise AnalysisError('get_headpos_by_rule: parameters (parent, children, rules) not found')
+        raise Unrecognised('get_headpos_by_rule: parameters (parent, children, rules) not found')
     plab, clab, rules = f.params[0], f.params[1], f.params[2]
     # ---- representation of the tables: Dict[str, List[Tuple[Dir, space separated list]]]
     for tbl in ('HEAD_RULES_PTB', 'HEAD_RULES_NEGRA'):
@@ -40,7 +40,7 @@ def r_heads(prog, tier):
     # ---- the priority string is only tested for emptiness or split
     hloops = [n for n in cfg.eval_nodes() if n.kind == 'iter' and unparse(n.ast.iter).startswith(rules + '[')]
     if len(hloops) != 1:
-        raise AnalysisError('get_headpos_by_rule: loop over the rules of the parent category not found')
+        raise Unrecognised('get_headpos_by_rule: loop over the rules of the parent category not found')
     H = hloops[0]
     hv = unparse(H.ast.target)
     ssl = '%s[1]' % hv
@@ -68,7 +68,7 @@ def r_heads(prog, tier):
             obs.append(Ob('R-HEADS/SSL', f.fq, 'the category list of a rule (`%s`) is only measured or split' % ssl, ok, how,
                           construct='ssl:' + unparse(p)[:50], line=n.lineno))
     if nuse < 2:
-        raise AnalysisError('get_headpos_by_rule: uses of the category list not found')
+        raise Unrecognised('get_headpos_by_rule: uses of the category list not found')
     # ---- every loop can reach its next iteration; sibling branches have the same exits
     for n in cfg.eval_nodes():
         if n.kind != 'iter':
@@ -152,7 +152,7 @@ def r_heads(prog, tier):
                       '`%s.data[\'head\'] = False` before the traversal' % tree if rootf else 'root not unmarked',
                       construct='mark-root', line=g.node.lineno, nontrivial=False))
         if not loops:
-            raise AnalysisError('%s: traversal not found' % g.fq)
+            raise Unrecognised('%s: traversal not found' % g.fq)
         L = loops[0]
         sv = unparse(L.ast.target)
         # children list
@@ -279,7 +279,7 @@ def r_flags(prog, tier):
     tree = f.params[0]
     loops = [n for n in cfg.eval_nodes() if n.kind == 'iter' and unparse(n.ast.iter) == 'trees.postorder(%s)' % tree]
     if len(loops) != 1:
-        raise AnalysisError('boyd_split: postorder traversal not found')
+        raise Unrecognised('boyd_split: postorder traversal not found')
     L = loops[0]
     sv = unparse(L.ast.target)
     hb = None
@@ -300,13 +300,13 @@ def r_flags(prog, tier):
     # the split nodes: one per block, all four flags set
     bl = [n for n in cfg.eval_nodes() if n.kind == 'iter' and L.id in n.loops and unparse(n.ast.iter).startswith('enumerate(')]
     if len(bl) != 1:
-        raise AnalysisError('boyd_split: loop over the blocks not found')
+        raise Unrecognised('boyd_split: loop over the blocks not found')
     B = bl[0]
     iv = unparse(B.ast.target.elts[0])
     fresh = fresh_paths(prog, f)
     fx = [p for p in fresh if p.endswith('[-1]')]
     if not fx:
-        raise AnalysisError('boyd_split: created nodes not found')
+        raise Unrecognised('boyd_split: created nodes not found')
     fp = fx[0]
     creates = [n for n in cfg.eval_nodes() if n.kind == 'stmt' and unparse(n.ast).startswith(fp[:-4] + '.append(')
                and B.id in n.loops]
